@@ -42,6 +42,12 @@ CHECK = Check(
         "covered by execution (correspondence + oracle) only",
         "ghost outputs `flushed`/`bedExchange`/`decayed` are part of the model's step record, not of the code's outputs; "
         "the oracle re-derives the in-stream store from the budget and the reported outputs instead",
+        "OBSERVATION (DESIGN §0.4, not an alarm): InstreamParticulateNutrient reports loadDeposited = 0 on every flushed step "
+        "(working volume < 0.01: the code `continue`s before loadDeposited.Set) although the channel store has moved by the bed "
+        "exchange of that step — proved (loadDeposited_unreported_on_flush_InstreamParticulateNutrient; witness: 10 kg in the water, "
+        "channelDepositionFraction 0.5, no water: channel store 0 → 5 kg, loadDeposited 0). The budget theorem is over the two "
+        "STORES (it uses the ghost bedExchange, equal to loadDeposited on non-flushed steps) and closes; Σ loadDeposited "
+        "reconstructs the channel store over non-flushed steps only",
         "InstreamFineSediment is modelled after the repairs fixes/fine-sediment-lumped-branch-local-mass.diff and "
         "fixes/fine-sediment-floodplain-zero-excess.diff (committed to the repository as dd8662a, 91c4d57); the two "
         "minimised pre-fix failing inputs are drawn first in every run",
@@ -55,7 +61,23 @@ CHECK = Check(
         "InstreamFineSediment parameters in FineRange (non-negative flows/velocities/areas/geometry, positive "
         "settling and remobilisation velocity, width, Manning n); 0 ≤ soilPercentFine ≤ 100 and concentration ≥ 0 for "
         "InstreamParticulateNutrient",
-        "StorageTrapAll carries no Δt: its budget is in the units of the inflow series (stated so, not a defect)",
+        "StorageTrapAll carries no Δt: its budget is in the units of the inflow series (stated so, not a defect); it is stated "
+        "on StorageTrapAll.model.run (budget_StorageTrapAll_model: outputs and FINAL STORE read from the model's result, for every "
+        "inflow-mass series including the empty one, where the repaired code and the model return the stored mass unchanged "
+        "with empty outputs)",
+        "equal series lengths: the other seven models' theorems quantify over the list of per-step input TUPLES; KModel.run builds "
+        "that list with zip3/zip4/zip5/zipIn, which truncate to the shortest series, where the Go kernel loops to the length of its "
+        "first series and panics (index out of range) on a shorter one. The theorems therefore cover exactly the calls whose input "
+        "series have one common length (OW/Proofs/C12Zip.lean: zipN_faithful, zipN_columns; zip4_truncates shows the truncation) "
+        "and say nothing about unequal lengths; the generated wrapper never makes such a call (the series of a cell are rows of "
+        "one [cell,input,time] array) and the K family generates equal lengths only",
+        "budget_InstreamFineSediment proves non-zero exactly the three divisors its identity cancels (Δt by hypothesis; totalVolume "
+        "and the lumped working volume by their branch conditions). The divisors inside floodPlainDepositionEmperical (outflow, Qf) "
+        "and inChannelStorage (v·width^0.4·n^0.6) are NOT used by it: both functions are opaque values in the proof, so the identity "
+        "also holds at ℝ for fineSedSettVelocity/fineSedReMobVelocity/linkWidth/manningsN = 0 (x/0 = 0 at ℝ, ±Inf/NaN in float64). "
+        "outflow and Qf are positive on the dividing branch by the code's own conditions (divisors_branch_InstreamFineSediment); the "
+        "transport-capacity divisor is positive only under the PARAMETER hypothesis FineRange (divisors_pos_InstreamFineSediment), "
+        "which nonneg_InstreamFineSediment assumes",
     ],
     partial=[],
 )
@@ -65,8 +87,12 @@ META = dict(
     text="Lean 4 theorems over line-by-line kernel models (generic in the number type, proved at ℝ): for each of the "
          "eight models budget_M (initial store + Σ mass in = final store + Σ downstream·Δt + deposited/trapped/decayed/"
          "floodplain + flushed, for every input list hence every prefix, with flushed ≠ 0 only below the volume "
-         "threshold), nonneg_M, remob_le_store and the channel-store capacity for fine sediment, divisors proved "
-         "non-zero; one-step lemma lifted through the scan loop by induction. The models are tied to the real code on "
+         "threshold), nonneg_M, remob_le_store and the channel-store capacity for fine sediment; the divisors each "
+         "budget identity cancels are proved non-zero from a hypothesis or the branch condition (for fine sediment the "
+         "transport-capacity divisor is positive only under the parameter range FineRange, see assumptions); "
+         "StorageTrapAll is stated on model.run with the final store read from the model (empty series included); "
+         "concrete fine-sediment runs reach fine:remob and fine:flood; input series of one common length (assumption); "
+         "one-step lemma lifted through the scan loop by induction. The models are tied to the real code on "
          "every run by differential execution (bit-exact / 1e-9), and the budget itself is evaluated on the "
          "implementation's outputs as the failing-input search.",
     design_ref="DESIGN.md §6 C12",
